@@ -47,7 +47,7 @@ func genHistory(concurrent bool) func(t *rapid.T) mx.History {
 		}
 		n := rapid.IntRange(1, 4).Draw(t, "ncycles")
 		for i := 0; i < n; i++ {
-			c := mx.Cycle{Pull: -1, Clear: rapid.Bool().Draw(t, "clear")}
+			c := mx.Cycle{Pull: -1, Clear: rapid.Bool().Draw(t, "clear"), EOFOnce: rapid.Bool().Draw(t, "eof-once")}
 			cnt := genCount(t, h.Chunk)
 			for k := 0; k < cnt; k++ {
 				c.Keys = append(c.Keys, rapid.IntRange(-6, 6).Draw(t, "key")) // small range around zero: duplicate keys, zero after negatives
